@@ -28,7 +28,7 @@ DIALECT_SPECIFIC = [
     ("sparksql", "insert overwrite directory '/tmp/x' select a from t"), ("snowflake", "copy into t from @stage/x"),
     ("tsql", "select a into #tmp from t"), ("hive", "insert overwrite table t partition (d = '1') select a from s"),
     ("ansi", "select '{{' from t"), ("ansi", "select count(*) {# from t"), ("ansi", "select {% a %} from t"), ("redshift", "analyze (t)"),
-    ("exasol", "create view v as select a from t"), ("clickhouse", "select a from t where b in (select c from u)"),
+    ("exasol", "create view v as select a from t"), ("exasol", "insert into t select id FROM table tab1"), ("clickhouse", "select a from t where b in (select c from u)"),
     ("oracle", "select a from t where rownum < 2"), ("teradata", "sel a from t"), ("duckdb", "from t select a"),
 ]
 
